@@ -44,8 +44,29 @@ def run(facts, rep):
                         if q.end == 'return' and qr is not None and qr[0] == 'call' and qr[1].split('::')[-1] == 'is_one' and sk(qr[2][0]).endswith('.0'):
                             clo_ok = True
                 ok = clo_ok and ('iter(' in it and 'arg1' in it) and 'lead' not in it and 'max' not in it and 'take' not in it and 'next' not in it
+        if not ok:
+            # the same universal test as a loop: an iteration whose monomial is not one answers false, exhaustion answers true
+            hp = SymEx(b, havoc_loops=True).run()
+            inl, aft, src_ok = [], [], False
+            for p in hp:
+                for (fid, bb_, l), v in p.state.loop_entry.items():
+                    if fid == 0 and re.match(r'into_iter\(iter\((deref\()?&?\*?arg1(\.data)?\)*\)$', sk(v).replace('&', '').replace('*', '')):
+                        src_ok = True
+                if p.end != 'return':
+                    continue
+                nx = [e.value for e in p.branches() if sk(e.term).startswith('discr(next(')]
+                one = [(sk(e.term), e.value) for e in p.branches() if re.match(r'is_one\(&?\*?next\(.*\)\.Some\.0\.0\)$', sk(e.term))]
+                if nx and nx[-1] == 1:
+                    inl.append((sk(p.ret), one[-1][1] if one else None))
+                elif nx:
+                    aft.append(sk(p.ret))
+            if src_ok and inl and all(r == '0' and o == 0 for r, o in inl) and aft and all(r == '1' for r in aft):
+                ok = True
+        distinguished = shape is not None and re.search(r'is_one\(&?\*?(lead_term|lead_deg|lead_mono|max|min|next|first|last|any_term)\(', shape or '') is not None
         if ok:
             rep.ok('E16.S1-is-const-universal', inst, 'self.iter().all(|(x, _)| x.is_one())')
+        elif not distinguished:
+            rep.indet('E16.S1: PolyBase::is_const outside the recognised fragment: %s' % shape)
         else:
             rep.violation('E16.S1-is-const-universal', inst,
                           'PolyBase::is_const is `%s`: the constant/one shortcuts of `*=` need "every term is the constant monomial"; testing one distinguished term is weaker '
